@@ -99,7 +99,11 @@ class REG(GL_book_model):
         # Add a decorative equation: Government Fiscal Balance
         # = Primary Balance - Interest expense + Central Bank Dividend (= interest
         # received by the central bank).
-        tre.AddVariable('FISCBAL', 'Fiscal Balance', 'PRIM_BAL - INTDEP + CB__INTDEP')
+        # Declare the central bank's interest income now (the DepositMarket fills it in), so that
+        # its name can be requested - the full code differs when embedded in a multi-country model.
+        cb.AddVariable('INTDEP', 'Interest received on deposits', '')
+        tre.AddVariable('FISCBAL', 'Fiscal Balance',
+                        'PRIM_BAL - INTDEP + ' + cb.GetVariableName('INTDEP'))
         tre.SetEquationRightHandSide('DEM_GOOD', 'DEM_GOOD_N + DEM_GOOD_S')
         tre.AddVariable('DEM_GOOD_N', 'Demand for goods in the North', '')
         tre.AddVariable('DEM_GOOD_S', 'Demand for goods in the South', '')
@@ -113,13 +117,13 @@ class REG(GL_book_model):
             # NOTE:
             # Initial conditions are only partial; there may be issues with some
             # variables.
-            self.Model.AddInitialCondition('HH_N', 'AfterTax', 86.486)
-            self.Model.AddInitialCondition('HH_S', 'AfterTax', 86.486)
-            self.Model.AddInitialCondition('HH_N', 'F', 86.486)
-            self.Model.AddInitialCondition('HH_N', 'DEM_DEP', 64.865)
-            self.Model.AddInitialCondition('HH_S', 'F', 86.486)
-            self.Model.AddInitialCondition('HH_S', 'DEM_DEP', 64.865)
-            self.Model.AddInitialCondition('TRE', 'F', 2. * -86.486)
+            hh_n.AddInitialCondition('AfterTax', 86.486)
+            hh_s.AddInitialCondition('AfterTax', 86.486)
+            hh_n.AddInitialCondition('F', 86.486)
+            hh_n.AddInitialCondition('DEM_DEP', 64.865)
+            hh_s.AddInitialCondition('F', 86.486)
+            hh_s.AddInitialCondition('DEM_DEP', 64.865)
+            tre.AddInitialCondition('F', 2. * -86.486)
             self.Model.AddGlobalEquation('t', 'decorated time axis', '1955. + k')
         return self.Model
 
